@@ -22,11 +22,23 @@ class SessionCheck(Check):
         if self.with_filters and rng.random() < 0.5:
             fs = [rng.randrange(4) for _ in range(rng.randint(1, 3))]
         kw = dict(self.gen_kwargs)
+        env = None
+        p_env = kw.pop("p_env", 0.0)
+        if p_env and rng.random() < p_env and all(len(j) > 0 for j in spec):
+            env = {"builder": rng.randrange(4), "features": sorted(rng.sample(range(6), rng.randint(1, 3))),
+                   "idle": int(rng.random() < 0.3), "padding": int(rng.random() < 0.7)}
+            kw["env_mode"] = True
+            kw["p_obs"] = 0.0
+            kw.pop("start_observers_choices", None)
         so = kw.pop("start_observers_choices", None)
         if so is not None:
             kw["start_observers"] = rng.sample(so, rng.randint(0, len(so)))
         events, stats = gen.gen_session(rng, spec, **kw)
-        return {"spec": spec, "filters": fs, "events": events}, stats
+        case = {"spec": spec, "filters": fs, "events": events}
+        if env is not None:
+            case["env"] = env
+            stats["env"] = 1
+        return case, stats
 
     def gen_cases(self, rng, n):
         cases = []
@@ -44,12 +56,13 @@ class SessionCheck(Check):
             self.note("ev_query", stats["query"])
             self.note("ev_reset", stats["reset"])
             self.note("ev_obs", stats["obs"])
+            self.note("env_sessions", stats.get("env", 0))
             for k, v in stats["invalid"].items():
                 self.note("invalid_" + k, v)
         return cases
 
     def run_impl(self, case):
-        return session.run_session(case["spec"], case["filters"], case["events"])
+        return session.run_session(case["spec"], case["filters"], case["events"], case.get("env"))
 
     def snapshots(self, case, obs):
         return [(i, o) for i, (ev, o) in enumerate(zip(case["events"], obs)) if ev[0] == 7]
@@ -58,10 +71,32 @@ class SessionCheck(Check):
         reqs = [session.model_case(case["spec"], case["filters"], case["events"])]
         rows = [o[0][3] for _, o in self.snapshots(case, obs)]
         reqs.append((3, [case["spec"], rows]))
+        reqs.extend(self.extra_requests(case, obs))
         return reqs
+
+    def extra_requests(self, case, obs):
+        return []
+
+    def rows_before(self, case, obs):
+        """rows[i] = schedule rows in force when event i is issued (taken from the
+        latest snapshot; valid because the generators put a snapshot after
+        every state-changing event) or None when unknown."""
+        out = []
+        cur = None
+        dirty = True
+        for ev, o in zip(case["events"], obs):
+            out.append(None if dirty else cur)
+            if ev[0] == 7:
+                cur = o[0][3]
+                dirty = False
+            elif ev[0] in (0, 2, 8) and o and o[0] == 0:
+                dirty = True
+        return out
 
     def tie_failures(self, case, obs, model_out):
         fails = []
+        strip = lambda ev, o: o[:6] if ev[0] == 7 else o
+        obs = [strip(ev, o) for ev, o in zip(case["events"], obs)]
         if obs != model_out:
             for i, (a, b) in enumerate(zip(obs, model_out)):
                 if a != b:
